@@ -119,7 +119,7 @@ def _sym(n, **k):
     return sp.Symbol(n, real=True, **k)
 
 
-def data_model_file(tilt=True, masses=True, comment=True, natoms=True, bounds=('x', 'y', 'z'), atoms=True, types_first=True, velocities=True, ncols=9):
+def data_model_file(tilt=True, masses=True, comment=True, natoms=True, bounds=('x', 'y', 'z'), atoms=True, types_first=True, velocities=True, ncols=9, legends=False):
     """-> (lines, truth) for a LAMMPS data file with 3 atoms (ids in file order 3,1,2)"""
     L = []
     t = {}
@@ -144,6 +144,8 @@ def data_model_file(tilt=True, masses=True, comment=True, natoms=True, bounds=('
             L.append(Line([sp.Integer(2), 'atom', 'types']))
         L.append(Line([]))
         t['masses'] = [sp.Symbol('m1', positive=True), sp.Symbol('m2', positive=True)]
+        if legends:
+            L.append(Line([], comment=['type', 'mass']))          # a whole-line comment ('#' in the first column)
         L.append(Line([sp.Integer(2), t['masses'][1]]))
         L.append(Line([sp.Integer(1), t['masses'][0]], comment=['Al']))
         L.append(Line([]))
@@ -151,6 +153,8 @@ def data_model_file(tilt=True, masses=True, comment=True, natoms=True, bounds=('
         t['atoms_line'] = len(L)
         L.append(Line(['Atoms'], comment=(['charge'] if comment is True else list(comment)) if comment else None))
         L.append(Line([]))
+        if legends:
+            L.append(Line([], comment=['id', 'type', 'q', 'x', 'y', 'z']))
         for i in (3, 1, 2):
             L.append(Line([sp.Integer(i), sp.Integer(1), _sym('q%d' % i), _sym('x%d' % i), _sym('y%d' % i), _sym('z%d' % i), sp.Integer(0), sp.Integer(1), sp.Integer(-1)][:ncols]))
         L.append(Line([]))
@@ -196,7 +200,8 @@ def data_read(ctx):
     L_ = UnitKey('UQ', 'length').sym
     # --- complete files
     for tag, kw in (('tilted, masses, style comment, velocities, image flags', {}), ('orthogonal, no masses, no comment, no velocities', dict(tilt=False, masses=False, comment=False, velocities=False, ncols=6)),
-                    ('tilted, a style comment of several words (hybrid styles are written as "Atoms # hybrid charge")', dict(comment=('hybrid', 'charge')))):
+                    ('tilted, a style comment of several words (hybrid styles are written as "Atoms # hybrid charge")', dict(comment=('hybrid', 'charge'))),
+                    ('whole-line comments (a column legend) under the Masses and Atoms headers', dict(legends=True))):
         lines, t = data_model_file(**kw)
         try:
             paths, rec = run_firstpass(lines)
@@ -650,4 +655,4 @@ def run(ctx):
     # what is loaded is what the writers wrote: the writer-side obligations that a round trip rests on (the header form follows the exact tilts, the column table the
     # caller passes to both writer and reader is not altered by the writer) are decided here too
     from . import c07
-    ctx.run_rules([tables_agree, data_read, table_read, dump_read, poscar_read, poscar_roundtrip, api, c07.data_file, c07.dump_file, c07.resolvers, lambda c: c07.returned_table(c, 'TABLE-READ')])
+    ctx.run_rules([tables_agree, data_read, table_read, dump_read, poscar_read, poscar_roundtrip, api, c07.data_file, c07.dump_file, c07.resolvers, c07.tables, c07.poscar, lambda c: c07.returned_table(c, "TABLE-READ")])
